@@ -130,6 +130,32 @@ def fixed_cases(tier):
     }
     hist = [[(7 * k + 3) % 10, 0] for k in range(104)]
     cases = [{"kind": "anim", "inst": inst, "history": hist, "mode": "order"}]
+    # small deterministic cases: the operation dispatched last is not the one
+    # that finishes last; a partial chart in which job 0 has no bar yet
+    small = {
+        "durations": [[5, 1], [1], [2, 2]],
+        "machines": [[[0], [1]], [[3]], [[2], [0]]],
+        "name": "small",
+        "meta": {},
+        "ints": True,
+        "family": "fixed",
+    }
+    for mode in ("frames", "gif", "creator", "creator_second_episode", "solver"):
+        cases.append(
+            {"kind": "anim", "inst": small, "history": [[0, 0], [2, 0], [2, 0], [0, 0], [0, 0]], "mode": mode, "rule": "most_work_remaining"}
+        )
+    cases.append(
+        {
+            "kind": "chart",
+            "inst": small,
+            "history": [[2, 0], [1, 0]],
+            "cut": 2,
+            "xlim_extra": None,
+            "cmap": "viridis",
+            "labels": False,
+            "via_creator": False,
+        }
+    )
     if tier == "thorough":
         cases.append({"kind": "anim", "inst": inst, "history": hist, "mode": "order_video"})
     return cases
